@@ -188,7 +188,8 @@ Section Readers.
     let '(w, s) := st in let '(s', r) := inner a s in ((w, s'), r).
 
   (* the common shape (nack generator, report receiver, rfc8888, packetdump receiver
-     [after fix F24], RTCP: nack responder, report receiver, packetdump receiver, cc):
+     [after fix F24], RTCP: nack responder, report receiver, cc; the packetdump receiver's
+     RTCP side is r_parse_nocache below):
        i, attr, err := reader.Read(b, a); if err != nil { return 0, nil, err }
        if attr == nil { attr = make }; h, err := attr.Get...(b[:i]); if err != nil { return 0, nil, err }
        account(h); return i, attr, nil
@@ -205,6 +206,25 @@ Section Readers.
       | Some (h, at') =>
           let w' := if keep h then mkRs (r_ctr w + 1) (r_log w ++ [h]) else w in
           ((w', s'), (n, d, Some at', []))
+      end
+    end.
+
+  (* packetdump.ReceiverInterceptor.BindRTCPReader (after the fix "parses incoming RTCP from a
+     private copy of the read buffer"):
+       i, attr, err := reader.Read(b, a); if err != nil { return 0, nil, err }
+       if attr == nil { attr = make }
+       pkts, err := rtcp.Unmarshal(append([]byte(nil), b[:i]...)); if err != nil { return 0, nil, err }
+       log(pkts); return i, attr, nil
+     the parse cache of the attributes is neither consulted nor filled *)
+  Definition r_parse_nocache : rwrapper := fun S inner a st =>
+    let '(w, s) := st in
+    let '(s', (n, d, at_, e)) := inner a s in
+    match e with
+    | _ :: _ => ((w, s'), (0, d, None, e))
+    | [] =>
+      match parse d with
+      | None => ((w, s'), (0, d, None, [E_PARSE]))
+      | Some h => ((mkRs (r_ctr w + 1) (r_log w ++ [h]), s'), (n, d, Some (or_fresh at_), []))
       end
     end.
 
@@ -305,7 +325,7 @@ End Readers.
 Arguments mkA {H}. Arguments a_id {H}. Arguments a_cache {H}. Arguments a_keys {H}.
 Arguments mkRs {H}. Arguments r_ctr {H}. Arguments r_log {H}. Arguments rs0 {H}.
 Arguments or_fresh {H}. Arguments get_parsed {D H}. Arguments r_id {D H}.
-Arguments r_parse_record {D H}. Arguments r_twcc_sender {D H}. Arguments r_stats {D H}.
+Arguments r_parse_record {D H}. Arguments r_parse_nocache {D H}. Arguments r_twcc_sender {D H}. Arguments r_stats {D H}.
 Arguments r_stats_rtcp {D H}. Arguments r_rtpfb {D H}.
 Arguments rbind_outer {D H} l {S}. Arguments rchain_bind {D H} l {S}.
 
